@@ -1589,7 +1589,70 @@ class SymExec:
             return conv(node)
         if isinstance(node, ast.Dict) and node.keys and all(isinstance(k, ast.Constant) for k in node.keys):
             return ('ref', 'modvar', owner + '.' + name)         # a dispatch table: looked up like a module-level one
+        if isinstance(node, (ast.Name, ast.Attribute)):
+            # scope_stack_class = ScopedDict / grammar_module = rules: a class, function or module the class points at
+            r = self.facts.resolve_expr(m, node)
+            if r[0] in ('cls', 'fn', 'pkgmod', 'extmod', 'ext', 'builtin'):
+                return self.ref(r)
         return None
+
+    def _ctor_option(self, cq: str, name: str):
+        """An attribute that holds a keyword-only constructor option: `self.X = X` in __init__ and nowhere else, X a keyword-only
+        parameter whose default is a constant.  The analysis follows the stock configuration - the default - and says so
+        (a host that passes its own table / factory answers for what that does)."""
+        ci = self.facts.classes.get(cq)
+        init = ci.methods.get('__init__') if ci is not None else None
+        if init is None or not init.args.kwonlyargs:
+            return None
+        kwd = {a.arg: d for a, d in zip(init.args.kwonlyargs, init.args.kw_defaults) if isinstance(d, ast.Constant)}
+        sp = init.args.args[0].arg if init.args.args else None
+        src = None
+        for fi in self.facts.functions.values():
+            if '.ply' in fi.module.name:
+                continue
+            for n in ast.walk(fi.node):
+                if isinstance(n, ast.Attribute) and n.attr == name and isinstance(n.ctx, (ast.Store, ast.Del)):
+                    if fi.node is not init:
+                        return None
+        result = None
+        for st in ast.walk(init):
+            tgt = st.targets[0] if isinstance(st, ast.Assign) and len(st.targets) == 1 else (st.target if isinstance(st, ast.AnnAssign) and st.value is not None else None)
+            if isinstance(tgt, ast.Attribute) and tgt.attr == name and isinstance(tgt.value, ast.Name) and tgt.value.id == sp:
+                if src is not None:
+                    return None
+                v = st.value
+                if isinstance(v, ast.Name) and v.id in kwd:
+                    src, result = v.id, ('const', kwd[v.id].value)
+                elif isinstance(v, ast.IfExp) and any(isinstance(x, ast.Name) and x.id in kwd for x in ast.walk(v.test)):
+                    # self.X = X if X is not None else <stock>   /   <stock> if X is None else X
+                    pn = [x.id for x in ast.walk(v.test) if isinstance(x, ast.Name) and x.id in kwd][0]
+                    if kwd[pn].value is not None:
+                        return None
+                    t = v.test
+                    if isinstance(t, ast.Compare) and len(t.ops) == 1 and isinstance(t.left, ast.Name) and t.left.id == pn \
+                            and isinstance(t.comparators[0], ast.Constant) and t.comparators[0].value is None:
+                        taken = v.orelse if isinstance(t.ops[0], ast.IsNot) else (v.body if isinstance(t.ops[0], ast.Is) else None)
+                    elif isinstance(t, ast.Name):
+                        taken = v.orelse
+                    else:
+                        taken = None
+                    if taken is None or any(isinstance(x, ast.Name) and x.id == pn for x in ast.walk(taken)):
+                        return None
+                    if isinstance(taken, ast.Constant):
+                        src, result = pn, ('const', taken.value)
+                    elif isinstance(taken, (ast.Name, ast.Attribute)):
+                        r = self.facts.resolve_expr(ci.module, taken)
+                        if r[0] not in ('cls', 'fn', 'pkgmod', 'ext', 'builtin'):
+                            return None
+                        src, result = pn, self.ref(r)
+                    else:
+                        return None
+                else:
+                    return None
+        if src is None:
+            return None
+        self.facts.__dict__.setdefault('_ctor_options_assumed', set()).add('%s.%s (stock value of the keyword-only option `%s`)' % (cq, name, src))
+        return result
 
     def _enum_members(self, cq: str):
         """[(NAME, constant value)] of a package Enum class in definition order, else None."""
@@ -1630,6 +1693,14 @@ class SymExec:
             if isinstance(st, ast.AnnAssign) and isinstance(st.target, ast.Name):
                 out.append((st.target.id, st.value))
         return out
+
+    def _is_sentinel(self, q: str) -> bool:
+        """A module-level NAME = object() assigned once and never rebound: an identity nobody else can have."""
+        mod, _, var = q.rpartition('.')
+        m = self.facts.modules.get(mod)
+        vals = m.assigns.get(var, []) if m is not None else []
+        return len(vals) == 1 and isinstance(vals[0], ast.Call) and isinstance(vals[0].func, ast.Name) and vals[0].func.id == 'object' \
+            and not vals[0].args and not any(isinstance(n, ast.Global) and var in n.names for n in ast.walk(m.tree))
 
     def _import_time_const(self, q: str):
         """A module-level name assigned exactly once, never declared global, whose value - computed while the module is
@@ -1846,6 +1917,9 @@ class SymExec:
                     isinstance(fb, tuple) and fb[:1] == ('param',) and self._is_self(fb[1], fr)))
                 if cv is not None:
                     return cv
+                ov = self._ctor_option(qc, name)
+                if ov is not None:
+                    return ov
         # @property of a package class
         if fr is not None and fb is not None:
             q = self.type_of(fb, fr)
@@ -2327,6 +2401,13 @@ class SymExec:
                 return ('const', op == 'is not')
             if fresh_obj(fl) and fresh_obj(fr_) and fl[0] == 'new' and fr_[0] == 'new' and fl[-1] != fr_[-1]:
                 return ('const', op == 'is not')
+        # identity with a private sentinel (`_UNSET = object()` at module level): a value the parser put on its stack - a grammar
+        # symbol, a token value - is never that object, and neither is a constant
+        if op in ('is', 'is not'):
+            for a_, b_ in ((fl, fr_), (fr_, fl)):
+                if isinstance(a_, tuple) and a_[:2] == ('ref', 'modvar') and len(a_) == 3 and self._is_sentinel(a_[2]) and (
+                        (isinstance(b_, tuple) and b_[:1] in (('sym',), ('symlist',), ('tok',), ('const',))) or isinstance(r if a_ is fl else l, ProdVal)):
+                    return ('const', op == 'is not')
         # identity / equality against None etc. for values that are known objects
         if op in ('is', 'is not', '==', '!=') and (is_const(fl) or is_const(fr_)):
             other, c = (fl, fr_) if is_const(fr_) else (fr_, fl)
@@ -2659,11 +2740,20 @@ class SymExec:
         """Package class of a module-level name bound once to `ClassName(...)` (a module-level singleton / null object)."""
         mod, _, var = dotted.rpartition('.')
         m = self.facts.modules.get(mod)
-        if m is None or var not in m.assigns or len(m.assigns[var]) != 1 or not isinstance(m.assigns[var][0], ast.Call):
+        rebinders = [fn for fn in ast.walk(m.tree) if isinstance(fn, (ast.FunctionDef, ast.AsyncFunctionDef))
+                     and any(isinstance(n, ast.Global) and var in n.names for n in ast.walk(fn))] if m is not None else []
+        vals = [v for v in m.assigns.get(var, [])] if m is not None else []
+        if rebinders and all((mod + '.' + fn.name) in self.facts.host_only_functions() for fn in rebinders):
+            vals = [v for v in vals if v is not None]       # (the `global` declarations of those functions were recorded as unknown re-bindings)
+        if m is None or len(vals) != 1 or not isinstance(vals[0], ast.Call):
             return None
-        if any(isinstance(n, ast.Global) and var in n.names for n in ast.walk(m.tree)):
-            return None
-        r = self.facts.resolve_expr(m, m.assigns[var][0].func)
+        if rebinders:
+            # rebound only by configuration API the package itself never calls (set_error_hooks(...)): the stock object is followed
+            if not all((mod + '.' + fn.name) in self.facts.host_only_functions() for fn in rebinders):
+                return None
+            self.facts.__dict__.setdefault('_ctor_options_assumed', set()).add('%s (stock object; replaced only through %s)' % (
+                dotted, ', '.join(fn.name for fn in rebinders)))
+        r = self.facts.resolve_expr(m, vals[0].func)
         return r[1] if r[0] == 'cls' else None
 
     def _attr_type_from_stores(self, cq: str, attr: str) -> Optional[str]:
@@ -3066,8 +3156,17 @@ class SymExec:
             t = self._construct(ff[2], args, kwargs, node, fr, ev_.eid)
             ev_.d['result'] = freeze(t)
             return t
+        if isinstance(ff, tuple) and ff[:1] == ('attr',) and isinstance(ff[1], tuple) and ff[1][:2] == ('ref', 'modvar') and len(ff[1]) == 3 \
+                and ff[2] in ('debug', 'info', 'warning', 'error', 'exception', 'critical', 'log'):
+            from .props.common import is_module_logger
+            if is_module_logger(self.facts, ff[1][2]):
+                # a line for the host's diagnostic channel: recorded, but not a call any rule has to reason about
+                self.emit('log', node, func=ff, args=fargs, kwargs=fkw)
+                return ('const', None)
         resolved = self.resolve_callee(func, fr)
         pure = isinstance(ff, tuple) and ff[:2] == ('ref', 'builtin') and ff[2] in PURE_BUILTINS
+        if ff == ('ref', 'builtin', 'isinstance') and len(fargs) == 2 and isinstance(fargs[1], tuple) and fargs[1][:1] == ('tuple',) and len(fargs[1]) == 2:
+            fargs = (fargs[0], fargs[1][1])         # isinstance(x, (T,)) is isinstance(x, T)
         recv_type = None
         if isinstance(ff, tuple) and ff and ff[0] == 'attr' and isinstance(ff[1], tuple) and ff[1] and ff[1][0] != 'super':
             recv_type = self.type_of(ff[1], fr)
